@@ -9,11 +9,11 @@ cd "$WT" || exit 2
 DEMO_CMD=$(grep -v '^\s*$' "$SEED/demo_cmd.txt" | grep -i cargo | head -1 | sed 's/^.*\(cargo [^`]*\).*$/\1/')
 echo "demo cmd: $DEMO_CMD"
 git apply --check -R "$SEED/patch.diff" 2>/dev/null || git apply "$SEED/patch.diff" 2>/dev/null
-echo "== demo WITH change"; (eval "$DEMO_CMD" 2>&1 | grep -E "^test result|FAILED|failed|error\[" | head -5)
+echo "== demo WITH change"; (eval "$DEMO_CMD" 2>&1 | grep -E "^test result|^error" | head -5)
 echo "== existing tests WITH change (library)"; cargo test -p throttlecrab --offline --lib 2>&1 | grep -E "^test result" | head -3
 if grep -q "throttlecrab-server/" "$SEED/patch.diff"; then echo "== existing tests WITH change (server)"; cargo test -p throttlecrab-server --offline 2>&1 | grep -E "^test result|FAILED" | head -8; fi
 git apply -R "$SEED/patch.diff"
-echo "== demo WITHOUT change"; (eval "$DEMO_CMD" 2>&1 | grep -E "^test result|FAILED|failed|error\[" | head -5)
+echo "== demo WITHOUT change"; (eval "$DEMO_CMD" 2>&1 | grep -E "^test result|^error" | head -5)
 git apply "$SEED/patch.diff"
 cd /repo && git apply "$SEED/patch.diff" || { echo "patch does not apply to /repo"; exit 3; }
 cd /verif
